@@ -113,42 +113,50 @@ ScpStep(r) ==
 -----------------------------------------------------------------------------
 (* recursive SFTP get *)
 Skipped(nm) == nm \in {<<".">>, <<"..">>}
-Filtered(nm) == FilterNames /\ (Len(nm) > 1 \/ nm = <<"">>)
+Filtered(nm) == FilterNames /\ Len(nm) > 1          \* the name contains a "/"
 
 (* _copy of one listed entry into directory string dst.                    *)
-(* acc = [fs, created, ok]; after a failure without error_handler nothing  *)
-(* more happens (the exception unwinds the whole get).                     *)
+(* acc = [fs, created, ok, halt].  ok = FALSE: an exception is unwinding   *)
+(* the whole get (no error_handler).  halt = TRUE: the repaired name check *)
+(* raised inside the listing loop of the directory being copied: that loop *)
+(* ends; the directory's own handler reports it (error_handler) and the    *)
+(* parent's loop goes on, or the exception unwinds everything.             *)
 RECURSIVE CopyEntry(_, _, _, _)
 RECURSIVE CopyList(_, _, _, _)
 CopyEntry(acc, dst, e, cont) ==
-    IF ~acc.ok \/ Skipped(e.name) THEN acc
-    ELSE IF Filtered(e.name) THEN [acc EXCEPT !.ok = cont]
+    IF ~acc.ok \/ acc.halt \/ Skipped(e.name) THEN acc
+    ELSE IF Filtered(e.name) THEN [acc EXCEPT !.halt = TRUE]
     ELSE LET d == Join(dst, e.name) IN
       CASE e.type = "file" ->
              LET o == SysOpenW(acc.fs, d) IN
              IF o.st = "err" THEN [acc EXCEPT !.ok = cont]
-             ELSE [fs |-> o.fs, created |-> acc.created \cup o.touched, ok |-> TRUE]
+             ELSE [acc EXCEPT !.fs = o.fs, !.created = acc.created \cup o.touched]
         [] e.type = "link" ->
              LET o == SysSymlink(acc.fs, e.t, d) IN
              IF o.st = "err" THEN [acc EXCEPT !.ok = cont]
-             ELSE [fs |-> o.fs, created |-> acc.created \cup o.touched, ok |-> TRUE]
+             ELSE [acc EXCEPT !.fs = o.fs, !.created = acc.created \cup o.touched]
         [] e.type = "dir" ->
-             IF IsDir(acc.fs, d) THEN CopyList(acc, d, e.sub, cont)
-             ELSE LET m == SysMkdir(acc.fs, d) IN
-                  IF m.st = "err" THEN [acc EXCEPT !.ok = cont]
-                  ELSE CopyList([fs |-> m.fs, created |-> acc.created \cup m.touched,
-                                 ok |-> TRUE], d, e.sub, cont)
+             LET m == SysMkdir(acc.fs, d)
+                 start == IF IsDir(acc.fs, d) THEN acc
+                          ELSE IF m.st = "err" THEN [acc EXCEPT !.ok = cont, !.halt = TRUE]
+                          ELSE [acc EXCEPT !.fs = m.fs,
+                                           !.created = acc.created \cup m.touched]
+                 r == CopyList(start, d, e.sub, cont)
+             IN IF ~IsDir(acc.fs, d) /\ m.st = "err" THEN [acc EXCEPT !.ok = cont]
+                ELSE IF r.halt THEN [r EXCEPT !.halt = FALSE, !.ok = cont]
+                ELSE r
 CopyList(acc, dst, list, cont) ==
-    IF list = <<>> THEN acc
+    IF list = <<>> \/ acc.halt \/ ~acc.ok THEN acc
     ELSE CopyList(CopyEntry(acc, dst, Head(list), cont), dst, Tail(list), cont)
 
 GetStep(e) ==
     /\ Mode = "get" /\ state = "run" /\ nrec < MaxRec
     /\ nrec' = nrec + 1 /\ hist' = Append(hist, e) /\ UNCHANGED <<cfg, stack>>
-    /\ LET r == CopyEntry([fs |-> lfs, created |-> created, ok |-> TRUE],
-                          stack[1], e, cfg.cont) IN
+    /\ LET r == CopyEntry([fs |-> lfs, created |-> created, ok |-> TRUE,
+                           halt |-> FALSE], stack[1], e, cfg.cont) IN
        /\ lfs' = r.fs /\ created' = r.created
-       /\ state' = IF r.ok THEN "run" ELSE "aborted"
+       /\ state' = IF r.halt THEN (IF cfg.cont THEN "done" ELSE "aborted")
+                   ELSE IF r.ok THEN "run" ELSE "aborted"
 
 -----------------------------------------------------------------------------
 Init ==
